@@ -252,13 +252,20 @@ Call(e) ==
                           \cup (IF Len(got) = Len(want) /\ \E i \in 1..Len(got) : got[i].op # want[i].op THEN {"C05"} ELSE {})
                           \cup (IF Len(got) = Len(want) /\ \E i \in 1..Len(got) : got[i].op = want[i].op /\ got[i].rev # want[i].rev THEN {"C17"} ELSE {}),
                         e, <<"dump", c2>>, BriefEvs(want), BriefEvs(got))})
+        \* ---- backfill from an arbitrary start CAS: exactly the documents whose CAS is at least the start (C09)
+        fDump2 ==
+            Cardinality({j \in 1..Len(e.dump2) :
+                DumpBody(EvsOf(e.dump2[j].evs)) # ExpectedDump(e.dump2[j].c, newDocs[e.dump2[j].c], e.dump2[j].start)
+                /\ Fail({"C09"}, e, <<"dump-from", e.dump2[j].c>>,
+                        BriefEvs(ExpectedDump(e.dump2[j].c, newDocs[e.dump2[j].c], e.dump2[j].start)),
+                        BriefEvs(DumpBody(EvsOf(e.dump2[j].evs))))})
     IN
     /\ docs' = newDocs
     /\ obs' = no
     /\ dumps' = nd
     /\ clock' = IF mut /\ regular /\ ~isPurge /\ postObs.cas > clock THEN postObs.cas ELSE clock
     /\ start' = start
-    /\ nfail' = nfail + fStep + fRev + fFresh + fReaders + fOthers + fLive + fDump
+    /\ nfail' = nfail + fStep + fRev + fFresh + fReaders + fOthers + fLive + fDump + fDump2
     /\ evlog' = IF mut /\ ~isPurge THEN [evlog EXCEPT ![c] = Append(@, <<e.i, EventOf(k, post, CollId(c))>>)] ELSE evlog
     /\ verlog' = [c2 \in Colls |->
                     LET ks == {k2 \in Keys : newDocs[c2][k2] # docs[c2][k2]} IN
